@@ -41,6 +41,17 @@ def gen_case(rng, hostile=False):
             ops.append(('B',))
         else:
             ops.append(('X', 0, data(rng.choice([1, window, window + 1, 2 * window]))))
+    if not hostile and rng.random() < 0.35:
+        # closing scenario: reader paused with data buffered when EOF / CLOSE arrive, then resumes
+        ops.append(('W', 0, data(rng.randint(1, window + 2))))
+        ops.append(('P',))
+        ops += [('F',)] * rng.randint(1, 3)
+        ops.append(rng.choice([('E',), ('C',), ('E',), ('C',)]))
+        if rng.random() < 0.3:
+            ops.append(('C',))
+        ops += [rng.choice([('F',), ('F',), ('B',)]) for _ in range(rng.randint(2, 6))]
+        ops.append(('R', rng.choice([None, None, 1, 2])))
+        ops += [rng.choice([('F',), ('B',), ('R', None)]) for _ in range(rng.randint(0, 4))]
     if hostile and not any(o[0] == 'X' for o in ops):
         k = rng.randint(0, len(ops))
         ops[k:k] = [('P',)] + [('X', 0, data(rng.choice([1, window, window]))) for _ in range(rng.randint(1, 4))] + [('F',)] * 3
